@@ -144,6 +144,14 @@ func runC06(run *Run, replay string) {
 			}
 			scs = genScenarios(rr, opts)
 		}
+		if bi%6 == 2 {
+			// fixed values, literal types and type declarations (own random stream), every offset
+			lf := literalValueFocusScenario(rand.New(rand.NewSource(subSeed(run.Res.Seed, 777000+bi))))
+			for off := 0; off <= len(lf.Src); off++ {
+				lf.Offsets = append(lf.Offsets, off)
+			}
+			scs = append(scs, lf)
+		}
 		max := uint(100)
 		if bi%4 == 3 {
 			max = 3
@@ -154,7 +162,7 @@ func runC06(run *Run, replay string) {
 			garbage := parserRangesMalformed(sc)
 			hookedAttributesOracle(run, sc, tbl, map[string]interface{}{"seed": run.Res.Seed, "base": bi, "scenario": si, "kind": sc.Kind, "src": string(sc.Src)})
 			loc := map[string]interface{}{"seed": run.Res.Seed, "base": bi, "scenario": si, "kind": sc.Kind, "src": string(sc.Src), "max_candidates": max}
-			for _, off := range cursorOffsets(rr, sc.Src, false, posN) {
+			for _, off := range append(cursorOffsets(rr, sc.Src, false, posN), sc.Offsets...) {
 				pos, ok := tbl[off]
 				if !ok {
 					continue
@@ -328,7 +336,10 @@ func hookedAttributesOracle(run *Run, sc *Scenario, tbl map[int]hcl.Pos, loc map
 		}
 		for _, k := range b.Blocks {
 			if ks := bs.Blocks[k.Type]; ks != nil {
-				walk(k.Body, ks.Body)
+				// the body in force: the dependent body selected by the block's labels / key attributes may
+				// redeclare an attribute without hooks
+				merged, _ := decoder.VerifMergeBlockBodySchemas(k.AsHCLBlock(), ks)
+				walk(k.Body, merged)
 			}
 		}
 	}
